@@ -44,6 +44,13 @@ const (
 	// calls of the clock scenarios (property C05 under threads): straight on the repository handle
 	CClockInc     Call = "clock-increment" // repo.Increment("bugs-edit")
 	CClockWitness Call = "clock-witness"   // repo.Witness("bugs-edit", value on file before the threads + 10)
+
+	CClockWitnessHigh Call = "clock-witness-high" // Witness(start + 20)
+	CClockWitnessFar  Call = "clock-witness-far"  // Witness(start + 50)
+	CClockRead        Call = "clock-read"         // observe the clock (Time())
+	// CMergeNew is what dag.merge does for a remote bug that is not local yet: it reads the remote
+	// history (witnesses its creation and edit times) and then publishes it with CopyRef
+	CMergeNew Call = "merge-new-remote-bug"
 )
 
 // Scenario: what each thread does, and the sub-cache size (0 = default).
@@ -57,6 +64,15 @@ type Scenario struct {
 	// commands do) before the threads start, so the handle does not know any clock yet; the threads
 	// use the logical clock "bugs-edit" directly and the oracle is the one of property C05
 	Clock bool `json:"clock,omitempty"`
+	// MemClock: the in-memory clock implementation instead of a repository on disk: "bare" = one
+	// lamport.MemClock, "mock" = the clock of repository.NewMockRepo() through Increment / Witness.
+	// Scheduling points are the atomic operations (and, for mock, its mutex).
+	MemClock string `json:"memclock,omitempty"`
+	// Crash (with Clock): crash-in-schedule. A fetched, not yet merged bug whose times are above the
+	// local clocks is prepared; at every scheduling point after a thread has returned from
+	// CMergeNew the on-disk state is a crash image: a copy of it is opened with OpenGoGitRepo +
+	// bug.ClockLoader and must hold clocks at or above every time stored under a local bug ref.
+	Crash bool `json:"crash,omitempty"`
 }
 
 // Issued is one operation a thread tried to record.
@@ -98,6 +114,20 @@ type env struct {
 	accepted map[string]Issued
 
 	clockBase uint64 // clock scenarios: value of the clock file before the threads start
+
+	// the clock under test (clock scenarios)
+	inc func() (lamport.Time, error)
+	wit func(lamport.Time) error
+	now func() (lamport.Time, error)
+
+	// crash-in-schedule
+	remoteRef, localRef string
+	remoteCreate        lamport.Time
+	remoteEdit          lamport.Time
+	published           bool // a thread has returned from CMergeNew
+	imgMu               sync.Mutex
+	images              int
+	imageProblems       map[string]Problem
 }
 
 func (e *env) setAccepted(name string, is *Issued) {
@@ -118,6 +148,9 @@ func (e *env) setAccepted(name string, is *Issued) {
 var FreeRunning bool
 
 func RunOne(s Scenario, prefix []int, preempt bool, recordSites bool) (res Result, err error) {
+	if s.MemClock != "" {
+		return runMemClock(s, prefix, recordSites)
+	}
 	dir, err := os.MkdirTemp(world.ScratchRoot(), "c18")
 	if err != nil {
 		return res, err
@@ -198,6 +231,20 @@ func RunOne(s Scenario, prefix []int, preempt bool, recordSites bool) (res Resul
 		if e.clockBase == 0 {
 			return res, fmt.Errorf("clock scenario: no %s clock file after the set-up", clockName)
 		}
+		if s.Crash {
+			if err := e.prepareRemoteBug(dir, u); err != nil {
+				return res, fmt.Errorf("crash-in-schedule set-up: %w", err)
+			}
+		}
+		e.inc = func() (lamport.Time, error) { return e.repo.Increment(clockName) }
+		e.wit = func(t lamport.Time) error { return e.repo.Witness(clockName, t) }
+		e.now = func() (lamport.Time, error) {
+			c, err := e.repo.GetOrCreateClock(clockName)
+			if err != nil {
+				return 0, err
+			}
+			return c.Time(), nil
+		}
 	}
 
 	// ---- controlled phase
@@ -235,7 +282,11 @@ func RunOne(s Scenario, prefix []int, preempt bool, recordSites bool) (res Resul
 		}
 		vctl.SetActorFunc(vsync.CurrentThreadName)
 		vsync.IOEnabled = s.IO
+		if s.Crash {
+			vsync.PointHook = func(string) { e.crashImage(dir) }
+		}
 		res.Verdict = sched.Run()
+		vsync.PointHook = nil
 		vsync.IOEnabled = false
 		vctl.SetActorFunc(nil)
 	}
@@ -295,7 +346,22 @@ func RunOne(s Scenario, prefix []int, preempt bool, recordSites bool) (res Resul
 		return res, nil
 	}
 	if s.Clock {
+		if s.Crash {
+			// the state all threads left behind is a crash image too
+			e.crashImage(dir)
+			keys := make([]string, 0, len(e.imageProblems))
+			for k := range e.imageProblems {
+				keys = append(keys, k)
+			}
+			sort.Strings(keys)
+			for _, k := range keys {
+				res.Problems = append(res.Problems, e.imageProblems[k])
+			}
+		}
 		e.clockOracle(dir, &res, add)
+		if s.Crash {
+			res.Outcome += fmt.Sprintf(" images=%d", e.images)
+		}
 		closed = true
 		return res, nil
 	}
@@ -622,20 +688,50 @@ func (e *env) do(name string, call Call) []Issued {
 	switch call {
 	case CClockInc:
 		is := Issued{Thread: name, Call: call}
-		t, err := e.repo.Increment(clockName)
+		t, err := e.inc()
 		if err != nil {
 			is.Err = err.Error()
 			return []Issued{is}
 		}
 		is.OpId, is.Acked = fmt.Sprint(uint64(t)), true
 		return []Issued{is}
-	case CClockWitness:
-		is := Issued{Thread: name, Call: call, OpId: fmt.Sprint(e.clockBase + 10)}
-		if err := e.repo.Witness(clockName, lamport.Time(e.clockBase+10)); err != nil {
+	case CClockWitness, CClockWitnessHigh, CClockWitnessFar:
+		v := e.clockBase + map[Call]uint64{CClockWitness: 10, CClockWitnessHigh: 20, CClockWitnessFar: 50}[call]
+		is := Issued{Thread: name, Call: call, OpId: fmt.Sprint(v)}
+		if err := e.wit(lamport.Time(v)); err != nil {
 			is.Err = err.Error()
 			return []Issued{is}
 		}
 		is.Acked = true
+		return []Issued{is}
+	case CClockRead:
+		is := Issued{Thread: name, Call: call}
+		t, err := e.now()
+		if err != nil {
+			is.Err = err.Error()
+			return []Issued{is}
+		}
+		is.OpId, is.Acked = fmt.Sprint(uint64(t)), true
+		return []Issued{is}
+	case CMergeNew:
+		is := Issued{Thread: name, Call: call, OpId: fmt.Sprint(uint64(e.remoteEdit))}
+		err := e.repo.Witness("bugs-create", e.remoteCreate)
+		if err == nil {
+			err = e.repo.Witness(clockName, e.remoteEdit)
+		}
+		if err == nil {
+			err = e.repo.CopyRef(e.remoteRef, e.localRef)
+		}
+		if err != nil {
+			is.Err = err.Error()
+			return []Issued{is}
+		}
+		is.Acked = true
+		e.imgMu.Lock()
+		e.published = true
+		e.imgMu.Unlock()
+		// the instant the call returned is a crash point as well
+		e.crashImage(e.dir)
 		return []Issued{is}
 	case CNew:
 		is := Issued{Thread: name, Call: call}
@@ -708,6 +804,7 @@ func clockOnFile(dir, name string) uint64 {
 // clock a restarted process loads are at or above every time handed out or witnessed.
 func (e *env) clockOracle(dir string, res *Result, add func(oracle, sig, format string, a ...any)) {
 	given := map[uint64][]string{}
+	floor := map[string]uint64{} // per thread: the largest value it was given or has witnessed so far
 	var max uint64
 	var outcome []string
 	for _, is := range res.Issued {
@@ -717,8 +814,22 @@ func (e *env) clockOracle(dir string, res *Result, add func(oracle, sig, format 
 		}
 		var v uint64
 		fmt.Sscanf(is.OpId, "%d", &v)
-		if v > max {
+		if v > max && is.Call != CClockRead {
 			max = v
+		}
+		if is.Call == CClockRead {
+			// an observation, not a value the clock has to dominate afterwards
+			if v < floor[is.Thread] {
+				add("c05.threads", "clock-observed-below-own-earlier-value", "thread %s observed the clock at %d after it had itself been given or had witnessed %d", is.Thread, v, floor[is.Thread])
+			}
+			outcome = append(outcome, fmt.Sprintf("%s:%s=%d", is.Thread, is.Call, v-e.clockBase))
+			continue
+		}
+		if is.Call == CClockInc && v <= floor[is.Thread] {
+			add("c05.threads", "increment-not-above-own-earlier-value", "thread %s: Increment returned %d after the thread had itself been given or had witnessed %d", is.Thread, v, floor[is.Thread])
+		}
+		if v > floor[is.Thread] {
+			floor[is.Thread] = v
 		}
 		if is.Call == CClockInc {
 			given[v] = append(given[v], is.Thread)
@@ -734,10 +845,16 @@ func (e *env) clockOracle(dir string, res *Result, add func(oracle, sig, format 
 			add("c05.threads", "same-time-handed-out-twice", "Increment returned %d to %s: two commits of this repository would carry the same logical time", v, strings.Join(who, " and "))
 		}
 	}
-	if clk, err := e.repo.GetOrCreateClock(clockName); err == nil {
-		if uint64(clk.Time()) < max {
-			add("c05.threads", "clock-in-memory-below-a-time-handed-out-or-witnessed", "all calls returned; the clock in memory is %d, a thread was given or witnessed %d", clk.Time(), max)
+	if t, err := e.now(); err == nil {
+		if uint64(t) < max {
+			add("c05.threads", "clock-in-memory-below-a-time-handed-out-or-witnessed", "all calls returned; the clock in memory is %d, a thread was given or witnessed %d", t, max)
 		}
+	}
+	sort.Strings(outcome)
+	res.Outcome = strings.Join(outcome, " ")
+	if e.repo == nil {
+		// in-memory implementation: there is no file and no restart
+		return
 	}
 	if f := clockOnFile(dir, clockName); f < max {
 		add("c05.threads", "clock-file-below-a-time-handed-out-or-witnessed", "all calls returned; the clock file holds %d, a thread was given or witnessed %d (base %d)", f, max, e.clockBase)
@@ -755,4 +872,212 @@ func (e *env) clockOracle(dir string, res *Result, add func(oracle, sig, format 
 	}
 	sort.Strings(outcome)
 	res.Outcome = strings.Join(outcome, " ")
+}
+
+// ---- in-memory clock implementations under threads (C05) ------------------------------------------
+
+func runMemClock(s Scenario, prefix []int, recordSites bool) (res Result, err error) {
+	const start = 5
+	e := &env{clockBase: start, own: map[string]entity.Id{}}
+	switch s.MemClock {
+	case "bare":
+		c := lamport.NewMemClockWithTime(start)
+		e.inc = c.Increment
+		e.wit = c.Witness
+		e.now = func() (lamport.Time, error) { return c.Time(), nil }
+	case "mock":
+		r := repository.NewMockRepo()
+		if err := r.Witness(clockName, start); err != nil {
+			return res, err
+		}
+		e.inc = func() (lamport.Time, error) { return r.Increment(clockName) }
+		e.wit = func(t lamport.Time) error { return r.Witness(clockName, t) }
+		e.now = func() (lamport.Time, error) {
+			c, err := r.GetOrCreateClock(clockName)
+			if err != nil {
+				return 0, err
+			}
+			return c.Time(), nil
+		}
+	default:
+		return res, fmt.Errorf("unknown in-memory clock %q", s.MemClock)
+	}
+	names := []string{"T1", "T2", "T3"}
+	issued := make([][]Issued, len(s.Threads))
+	sched := vsync.NewSched(prefix, 20000, recordSites)
+	for i, calls := range s.Threads {
+		i, calls, name := i, calls, names[i]
+		sched.Go(name, func() {
+			for _, call := range calls {
+				issued[i] = append(issued[i], e.do(name, call)...)
+			}
+		})
+	}
+	res.Verdict = sched.Run()
+	for _, l := range issued {
+		res.Issued = append(res.Issued, l...)
+	}
+	if res.Verdict.Diverged != "" {
+		return res, fmt.Errorf("replay diverged: %s", res.Verdict.Diverged)
+	}
+	add := func(oracle, sig, format string, a ...any) {
+		res.Problems = append(res.Problems, Problem{oracle, sig + "/in-memory-clock(" + s.MemClock + ")", fmt.Sprintf(format, a...)})
+	}
+	for _, t := range sched.Threads() {
+		if t.Panic != nil {
+			msg := fmt.Sprint(t.Panic)
+			res.Panics = append(res.Panics, msg)
+			add("c05.threads", "panic:"+firstLine(msg), "thread %s panicked: %s", t.Name, msg)
+		}
+	}
+	switch {
+	case res.Verdict.Deadlock:
+		add("c05.threads", "deadlock:"+blockedSig(res.Verdict.Blocked), "no thread can run: %s", strings.Join(res.Verdict.Blocked, "; "))
+		res.Outcome = "deadlock"
+	case res.Verdict.Livelock:
+		add("c05.threads", "livelock", "execution exceeded the horizon of scheduling points")
+		res.Outcome = "livelock"
+	case len(res.Panics) > 0:
+		res.Outcome = "panic"
+	default:
+		e.clockOracle("", &res, add)
+	}
+	return res, nil
+}
+
+// ---- crash-in-schedule (C06) -------------------------------------------------------------------------
+
+// prepareRemoteBug leaves a bug under refs/remotes/R/bugs/ whose creation and edit times are one
+// above the local clock files: what a fetch of a bug written elsewhere looks like before the merge.
+func (e *env) prepareRemoteBug(dir string, u *cache.IdentityCache) error {
+	clocksDir := dir + "/repo/.git/" + world.Namespace + "/clocks/"
+	saved := map[string][]byte{}
+	for _, n := range []string{"bugs-edit", "bugs-create"} {
+		data, err := os.ReadFile(clocksDir + n)
+		if err != nil {
+			return err
+		}
+		saved[n] = data
+	}
+	b, _, err := bug.Create(u.Identity, time.Unix(1600000000, 0).Unix(), "written elsewhere", "message", nil, nil)
+	if err != nil {
+		return err
+	}
+	if err := b.Commit(e.repo); err != nil {
+		return err
+	}
+	e.remoteCreate, e.remoteEdit = b.CreateLamportTime(), b.EditLamportTime()
+	e.localRef = "refs/bugs/" + b.Id().String()
+	e.remoteRef = "refs/remotes/R/bugs/" + b.Id().String()
+	if err := e.repo.CopyRef(e.localRef, e.remoteRef); err != nil {
+		return err
+	}
+	if err := e.repo.RemoveRef(e.localRef); err != nil {
+		return err
+	}
+	// the local clocks have never seen that bug
+	_ = e.repo.Close()
+	for n, data := range saved {
+		if err := os.WriteFile(clocksDir+n, data, 0o644); err != nil {
+			return err
+		}
+	}
+	e.repo, err = repository.OpenGoGitRepo(dir+"/repo", world.Namespace, nil)
+	if err != nil {
+		return err
+	}
+	if uint64(e.remoteEdit) != e.clockBase+1 {
+		return fmt.Errorf("remote bug has edit time %d, expected %d", e.remoteEdit, e.clockBase+1)
+	}
+	return nil
+}
+
+// imageVerdicts remembers the verdict per abstract on-disk state (clock files, local bug refs):
+// the commits are the same in every execution of a scenario, so equal abstractions get equal verdicts.
+var imageVerdicts = map[string][]Problem{}
+
+// crashImage: if the process died now (no other thread runs at a scheduling point, so the disk
+// state is well defined), would the re-opened repository satisfy the clock clause of C06?
+func (e *env) crashImage(dir string) {
+	e.imgMu.Lock()
+	defer e.imgMu.Unlock()
+	if !e.published {
+		return
+	}
+	gitdir := dir + "/repo/.git"
+	key := strings.Join(world.ClockValues(gitdir), ",")
+	entries, _ := os.ReadDir(gitdir + "/refs/bugs")
+	for _, en := range entries {
+		data, _ := os.ReadFile(gitdir + "/refs/bugs/" + en.Name())
+		key += ";" + en.Name() + "=" + strings.TrimSpace(string(data))
+	}
+	if _, err := os.Stat(gitdir + "/" + world.Namespace + "/clocks-rebuild-in-progress"); err == nil {
+		key += ";rebuild-marker"
+	}
+	e.images++
+	probs, ok := imageVerdicts[key]
+	if !ok {
+		// judged on a goroutine the scheduler does not know: the repository code it runs must use
+		// the real primitives, not scheduling points of the execution that is being explored
+		done := make(chan []Problem)
+		go func() { done <- judgeImage(dir) }()
+		probs = <-done
+		imageVerdicts[key] = probs
+	}
+	if e.imageProblems == nil {
+		e.imageProblems = map[string]Problem{}
+	}
+	for _, p := range probs {
+		e.imageProblems[p.Oracle+"|"+p.Sig] = p
+	}
+}
+
+func judgeImage(dir string) []Problem {
+	var out []Problem
+	add := func(sig, format string, a ...any) {
+		out = append(out, Problem{"c06.crash-in-schedule", sig, fmt.Sprintf(format, a...)})
+	}
+	img, err := os.MkdirTemp(world.ScratchRoot(), "img")
+	if err != nil {
+		add("harness-cannot-copy", "%v", err)
+		return out
+	}
+	defer os.RemoveAll(img)
+	if err := world.CopyTree(dir+"/repo", img+"/repo"); err != nil {
+		add("harness-cannot-copy", "%v", err)
+		return out
+	}
+	r, err := repository.OpenGoGitRepo(img+"/repo", world.Namespace, []repository.ClockLoader{bug.ClockLoader})
+	if err != nil {
+		add("merge-new||clock-write:reopen-fails", "a process dying at this point leaves a repository that does not open: %v", err)
+		return out
+	}
+	defer r.Close()
+	clocks := map[string]uint64{}
+	if cs, err := r.AllClocks(); err == nil {
+		for n, c := range cs {
+			clocks[n] = uint64(c.Time())
+		}
+	}
+	refs, _ := r.ListRefs("refs/bugs/")
+	for _, ref := range refs {
+		h, err := r.ResolveRef(ref)
+		if err != nil {
+			continue
+		}
+		d, err := refmodel.ReadDAG(r, h)
+		if err != nil {
+			add("merge-new||clock-write:ref-to-missing-object", "%v", err)
+			continue
+		}
+		for _, p := range d.Packs {
+			if p.EditTime > clocks["bugs-edit"] {
+				add("merge-new||clock-write:clock-below-stored-time", "a process dying at this point (a thread has returned from publishing a merged bug, another thread is inside a clock write) re-opens with bugs-edit=%d; a commit reachable from a local bug ref stores edit time %d", clocks["bugs-edit"], p.EditTime)
+			}
+			if p.CreateTime > clocks["bugs-create"] {
+				add("merge-new||clock-write:clock-below-stored-time", "a process dying at this point re-opens with bugs-create=%d; a local bug stores creation time %d", clocks["bugs-create"], p.CreateTime)
+			}
+		}
+	}
+	return out
 }
